@@ -38,7 +38,7 @@ def classify(term):
     return "SplitStoppedNotStored" if walk(term) else None
 
 
-def run_terms(binary, terms, seed, tag, threads, perturb=False):
+def run_terms(binary, terms, seed, tag, threads, perturb=False, pool_bias=False):
     """Runs the harness over the terms; after a crash it continues behind the crashing term."""
     tdir = os.path.join(vlib.BUILD, "traces")
     os.makedirs(tdir, exist_ok=True)
@@ -53,6 +53,8 @@ def run_terms(binary, terms, seed, tag, threads, perturb=False):
         env = {"VERIF_SKIP": str(skip)}
         if perturb:
             env["VERIF_PERTURB"] = "1"
+        if pool_bias:
+            env["VERIF_POOL_BIAS"] = "1"
         rc, out = vlib.sh([binary, path, res, str(seed), "--pika:threads=%d" % threads], timeout=900, env=env)
         lines = vlib.read_ndjson(res) if os.path.exists(res) else []
         try:
@@ -153,9 +155,30 @@ def run():
 
     def size(t):
         return 1 + sum(size(t[k]) for k in ("s", "a", "b") if k in t)
-    racy = [c for c in cases if shared(c["term"]) and size(c["term"]) <= 3]
+    def leaves(t):
+        if t["op"] in ("just", "fail", "stop"):
+            return [t["op"]]
+        return [x for k in ("s", "a", "b") if k in t for x in leaves(t[k])]
+
+    def joins(t):   # when_all whose inputs can complete concurrently with at least two non-value signals
+        return (t["op"] == "when_all" and sum(1 for x in leaves(t) if x != "just") >= 2) or \
+            any(joins(t[k]) for k in ("s", "a", "b") if k in t)
+    racy = [c for c in cases if (shared(c["term"]) or joins(c["term"])) and size(c["term"]) <= 3]
     rep_n = 60 if chk.thorough() else 25
-    stress = [c for c in racy for _ in range(rep_n)]
+    stress = [c for c in racy if shared(c["term"]) for _ in range(rep_n)]
+    # inputs of a when_all that signal error/stopped at the same instant: thousands of runs of the few
+    # small terms, leaves mostly completing from concurrently running pool tasks
+    jstress = [c for c in racy if joins(c["term"]) and not shared(c["term"]) for _ in range(rep_n * 100)]
+    for part, threads in ((0, 4), (1, 4)):
+        sub = jstress[part::2]
+        res = run_terms(binary, [c["term"] for c in sub], chk.seed * 100 + 87 + part, "j%d" % part, threads, perturb=True,
+                        pool_bias=True)
+        for i, c in enumerate(sub):
+            o = res.get(i + 1)
+            if o is None:
+                raise vlib.ModelFailure("no result for term %s" % prefix(c["term"]))
+            recs.append((c, o))
+    chk.cov["join_stress_runs"] = len(jstress)
     for part, threads in ((0, 4), (1, 3)):
         sub = stress[part::2]
         res = run_terms(binary, [c["term"] for c in sub], chk.seed * 100 + 77 + part, "s%d" % part, threads, perturb=True)
